@@ -92,6 +92,8 @@ NAME_CLASSES = ["plain", "space", "unicode", "xml", "mixed"]
 
 def concrete_name(abstract: str, cls: str, is_file: bool) -> str:
     """Injective, order-preserving enough for our purposes; never matches a default pattern."""
+    if abstract == "dsstore":
+        return ".DS_Store"
     ext = ".mov" if is_file else ""
     if abstract.endswith("_t"):  # abstract names ending in _t get the '.tmp' extension (glob scope)
         ext = ".tmp"
